@@ -147,7 +147,8 @@ pub fn invoice_bytes(spec: &InvSpec) -> Vec<u8> {
     let mut b = InvoiceBuilder::new(Currency::Bitcoin)
         .description(format!("verif {}", spec.variant))
         .payment_hash(hash_of(k))
-        .payment_secret(PaymentSecret([42u8; 32]))
+        // (another invoice for the same hash carries another payment secret, as a payee's second invoice would)
+        .payment_secret(PaymentSecret([42u8 ^ spec.variant; 32]))
         .duration_since_epoch(std::time::Duration::from_secs(if spec.expiry > 0 { crate::clock::EPOCH_SECS } else { 1_700_000_000 }))
         .min_final_cltv_expiry_delta(18);
     if spec.expiry > 0 {
